@@ -19,7 +19,7 @@ PID = "C10"
 KINDS = ("grid1", "grid2", "grid3", "oned", "rule", "atom", "mol", "uniform", "tensor", "periodic", "angular", "shell", "intgrid")
 SELECTABLE = ("grid1", "grid2", "grid3", "oned", "rule", "periodic", "intgrid")
 QUERYABLE = ("grid1", "grid2", "grid3", "oned", "rule", "atom", "mol", "uniform", "tensor", "local", "angular", "shell", "intgrid")
-CENTER_KINDS = ("random", "onpoint", "far", "centroid", "badshape")
+CENTER_KINDS = ("random", "onpoint", "far", "centroid", "badshape", "natural")
 RADIUS_KINDS = ("zero", "tiny", "q10", "q50", "q90", "huge", "inf", "neg", "nan", "exact", "just_below", "just_above")
 INDEX_KINDS = ("int", "negint", "npint", "npint32", "slice", "slice_step", "intarray", "mask", "list", "uintarray", "negarray", "boollist", "lastint", "slice_rev", "slice_neg")
 SET_KINDS = ("translate", "scale", "permute", "fresh", "badshape", "same")
@@ -45,7 +45,9 @@ def _gen_new(rng, cfg):
         # points stored with an integer dtype (an index lattice); centres are real numbers all the same
         return ["new", kind, {"n": rng.randint(3, 40), "dim": rng.choice([1, 2, 3]), "seed": rng.randrange(10**6), "dtype": rng.choice(["int64", "int32", "float32"])}]
     if kind == "atom":
-        return ["new", kind, {"nr": rng.randint(2, 6), "deg": rng.choice([3, 5, 7]), "center": [round(rng.uniform(-2, 2), 2) for _ in range(3)] if rng.random() < 0.8 else [0.0, 0.0, 0.0], "rotate": rng.choice([0, 0, 11])}]
+        return ["new", kind, {"nr": rng.randint(2, 6), "deg": rng.choice([3, 5, 7]), "center": [round(rng.uniform(-2, 2), 2) for _ in range(3)] if rng.random() < 0.8 else [0.0, 0.0, 0.0], "rotate": rng.choice([0, 0, 11]),
+                              # the order of the radial nodes is the caller's: ascending, descending (decreasing maps), any
+                              "rorder": rng.choice(["asc", "asc", "desc", "shuffled"]), "pruned": rng.random() < 0.3}]
     if kind == "mol":
         return ["new", kind, {"nr": rng.randint(2, 4), "deg": rng.choice([3, 5]), "d": rng.choice([1.0, 1.4, 2.5]), "store": rng.random() < 0.5, "natom": rng.choice([1, 2, 2, 3])}]
     if kind == "uniform":
@@ -75,7 +77,7 @@ def _gen_op(rng, cfg):
     if k == "new":
         return _gen_new(rng, cfg)
     if k == "query":
-        return ["query", h, rng.choices(CENTER_KINDS, weights=[5, 3, 1.5, 1, 0.6])[0], rng.choices(RADIUS_KINDS, weights=[1.5, 1.5, 3, 3, 2, 1, 1.5, 0.5, 0.5, 1.5, 1.2, 1.2])[0], rng.randrange(10**6)]
+        return ["query", h, rng.choices(CENTER_KINDS, weights=[5, 3, 1.5, 1, 0.6, 2.5])[0], rng.choices(RADIUS_KINDS, weights=[1.5, 1.5, 3, 3, 2, 1, 1.5, 0.5, 0.5, 1.5, 1.2, 1.2])[0], rng.randrange(10**6)]
     if k == "requery":
         return ["requery", h]
     if k == "set_points":
@@ -160,7 +162,16 @@ def _build(p_kind, p):
         return PeriodicGrid(pts, w), {"realvecs": None}
     if p_kind == "atom":
         rg = BeckeRTransform(0.0, 1.0).transform_1d_grid(GaussLegendre(p["nr"]))
-        return AtomGrid(rg, degrees=[p["deg"]], center=np.array(p["center"], dtype=float), rotate=p["rotate"]), {}
+        ro = p.get("rorder", "asc")
+        if ro != "asc":
+            from grid.basegrid import OneDGrid
+
+            idx = np.arange(rg.size)[::-1] if ro == "desc" else np.random.RandomState(p["nr"] * 7 + p["deg"]).permutation(rg.size)
+            rg = OneDGrid(np.array(rg.points[idx]), np.array(rg.weights[idx]), (0, np.inf))
+        degs = [p["deg"]]
+        if p.get("pruned"):
+            degs = [(3, p["deg"])[k % 2] for k in range(rg.size)]
+        return AtomGrid(rg, degrees=degs, center=np.array(p["center"], dtype=float), rotate=p["rotate"]), {}
     if p_kind == "mol":
         rg = BeckeRTransform(0.0, 1.0).transform_1d_grid(GaussLegendre(p["nr"]))
         coords = np.array([[0.0, 0.0, 0.0], [p["d"], 0.0, 0.0], [0.0, p["d"], 0.3]])[: p["natom"]]
@@ -261,7 +272,27 @@ def _center_for(o, ckind, seed):
     r = np.random.RandomState(seed % (2**32))
     one_d = pts.ndim == 1
     dim = 1 if one_d else pts.shape[1]
-    if ckind == "onpoint" and len(pts):
+    nat = None
+    if ckind == "natural":
+        # the object's own reference point, exactly as the object reports it: the nucleus of an atomic grid, one of the
+        # nuclei of a molecular grid, the origin of a lattice, the centre of a local grid, the centre of the unit sphere
+        g = o.g
+        try:
+            if getattr(g, "atcoords", None) is not None:
+                nat = np.array(g.atcoords[r.randint(len(g.atcoords))], dtype=float)
+            elif getattr(g, "center", None) is not None and np.ndim(g.center) <= 1:
+                nat = np.array(g.center, dtype=float)
+            elif getattr(g, "origin", None) is not None:
+                nat = np.array(g.origin, dtype=float)
+            elif o.kind in ("angular", "shell"):
+                nat = np.zeros(dim)
+        except Exception:  # noqa: BLE001
+            nat = None
+        if nat is not None and (nat.size != dim):
+            nat = None
+    if nat is not None:
+        c = nat.reshape(dim) if not one_d else np.array(float(np.ravel(nat)[0]))
+    elif ckind in ("onpoint", "natural") and len(pts):
         c = np.array(pts[r.randint(len(pts))], dtype=float)
     elif ckind == "far":
         c = np.full(dim, 1e3) if not one_d else np.array(1e3)
